@@ -9,6 +9,7 @@ package vsched
 
 import (
 	"fmt"
+	"hash/fnv"
 	"runtime/debug"
 	"sort"
 	"strings"
@@ -55,6 +56,7 @@ type Point struct {
 	N      int    // number of alternatives
 	Choice int    // the one taken
 	FP     string // fingerprint of the alternatives (divergence detection)
+	H      uint64 // hash of FP
 }
 
 // Exec is the record of one execution.
@@ -103,7 +105,7 @@ type Sched struct {
 	past     bool
 
 	prefix   []int
-	prefixFP []string
+	prefixFP []uint64
 	x        *Exec
 
 	randVal float64
@@ -610,11 +612,14 @@ func (s *Sched) choose(en []trans) int {
 			s.x.Diverged = fmt.Sprintf("point %d: prefix wants alternative %d of %d (%s)", i, c, n, fp)
 			c = 0
 		}
-		if i < len(s.prefixFP) && s.prefixFP[i] != "" && s.prefixFP[i] != fp && s.x.Diverged == "" {
-			s.x.Diverged = fmt.Sprintf("point %d: alternatives differ on replay:\n  was %s\n  now %s", i, s.prefixFP[i], fp)
-		}
 	}
-	s.x.Points = append(s.x.Points, Point{N: n, Choice: c, FP: fp})
+	hh := fnv.New64a()
+	hh.Write([]byte(fp))
+	h := hh.Sum64()
+	if i < len(s.prefix) && i < len(s.prefixFP) && s.prefixFP[i] != 0 && s.prefixFP[i] != h && s.x.Diverged == "" {
+		s.x.Diverged = fmt.Sprintf("point %d: the alternatives differ from those seen when this prefix was first executed; now %s", i, fp)
+	}
+	s.x.Points = append(s.x.Points, Point{N: n, Choice: c, FP: fp, H: h})
 	return c
 }
 
@@ -728,7 +733,7 @@ func (s *Sched) drain() {
 const leakMsg = "blocked goroutines remain"
 
 // RunOnce performs one execution of body under the schedule given by prefix.
-func RunOnce(t *testing.T, cfg Config, prefix []int, prefixFP []string, body func(s *Sched)) (x *Exec) {
+func RunOnce(t *testing.T, cfg Config, prefix []int, prefixFP []uint64, body func(s *Sched)) (x *Exec) {
 	if cfg.Horizon == 0 {
 		cfg.Horizon = 10 * time.Second
 	}
